@@ -290,6 +290,12 @@ for _k in ("C03", "C04", "C05", "C06", "C07", "C08", "C10", "C11", "C12", "C19")
     CLAIMED[_k]["note"] += (" tools/translate.py is trusted to render the Python subset it accepts faithfully into the vocabulary of Model/Lit.lean "
                             "(a body it cannot read falls back to the committed translation and is tied by the correspondence run alone; the "
                             "evidence lists it).")
+STREAM_TIE = (" StreamTransport's four methods are regenerated from the code on every run as well (tools/translate.py -> Generated/StreamBodies.lean over "
+              "Model/LitStream.lean) and Lemmas/StreamBodiesEq.lean proves connect/disconnect/read/write equal to the model's Transport.* for every "
+              "transport object and every injected fault.")
+for _k in ("C03", "C17"):
+    CLAIMED[_k]["text"] += STREAM_TIE
+CLAIMED["C17"]["technique"] += " + StreamTransport methods translated from the Python AST with equality proofs (StreamBodiesEq)"
 CLAIMED["C02"]["text"] += (" The malformed stream is also fed end to end through Gateway.listen (one long-lived and fresh generators, populated registries): "
                            "a rejected line must raise InvalidMessageError carrying no decoded message, change nothing and not swallow the next line.")
 CLAIMED["C03"]["text"] += (" Whole pipelines bytes -> StreamTransport.read -> listen -> handler -> send -> StreamTransport.write on one real transport are run with "
